@@ -15,20 +15,20 @@ RULE = ('case = history without forcing/failure/deletion: 1-4 sessions (real pro
         'prediction; has_data must equal the stored flag; construction/inspection steps predict zero runs; over the whole history runs per location <= 1. '
         'non-trivial = history in which some value was served by load while an upstream result was missing, or served to another process; '
         'distinct = hash(spec files, roots, sessions)')
-REQUIRED = ['histories', 'values_observed', 'runs_observed', 'inspections', 'prov_loaded', 'prov_in_memory', 'prov_loaded_other_process',
+REQUIRED = ['chains_on_shared_registry', 'name_mode_histories', 'histories', 'values_observed', 'runs_observed', 'inspections', 'prov_loaded', 'prov_in_memory', 'prov_loaded_other_process',
             'loads_with_missing_upstream', 'locations_run_once_checked']
 ASSUMPTIONS = ['sequential histories (concurrent processes computing the same task are outside the statement)',
                'which inputs a generated run reads is fixed by its spec (all declared inputs)']
 BUDGET = {'quick': 75, 'thorough': 1500}
 WANT = {'C04', 'C08'}
-OPTS = {'max_sessions': 4, 'max_chains': 4, 'max_requests': 6, 'p_inspect': 0.3, 'p_force': 0.0, 'p_fault': 0.0, 'p_spawn': 0.1}
+OPTS = {'max_sessions': 4, 'max_chains': 4, 'max_requests': 6, 'p_inspect': 0.3, 'p_force': 0.0, 'p_fault': 0.0, 'p_spawn': 0.1, 'p_shared_registry': 0.2}
 
 
 def run_case(case) -> CaseResult:
     res = CaseResult()
     rng = random.Random(case['seed'])
     for i in range(case['n']):
-        run_history_case(rng, res, WANT, OPTS, at_most_once=True)
+        run_history_case(rng, res, WANT, OPTS, at_most_once=True, name_mode=rng.random() < 0.2)
         if len(res.violations) > 3:
             break
     return res
